@@ -65,6 +65,21 @@ CHECKS = {
  "C25": ("proptest schedules over real processes stepped through cfg hooks in fs_locking (+ SIGKILL crash points); history-invariant oracle evaluated on the real execution",
          "Exploration: 9 pinned + 192 enumerated + 240 random (quick) / 4800 + 4000 (thorough) histories of 2-3 real processes (mark, unmark, is_file_dirty, cleanup, lock/release on a handle, exit, optional SIGKILL; flags pre-seeded stale / empty) interleaved at the step points between the file-system operations: a flag held by a live process must be seen by every check lying inside the hold interval and by a fresh observer at the end; flags of dead owners must read clean; no actor may fail.",
          "Interleavings at hook granularity only; no pid reuse; liveness is what the real `ps` reports. Six recorded signatures (two root causes: stale-flag removal ABA, concurrent lock) are attributed by controller-side reads of the flag files.", "12/C25", "vp-proc"),
+ "C06": ("proptest constant-expression generator (boundary-derived operands); differential oracle: run-time evaluation on the FuelVM (reference) vs. const evaluation (const / configurable) and optimizer folding",
+         "Exploration: 150 (quick) / 4000 (thorough) batches of <= 32 expressions over u8..u256/b256 (+ - * / % & | ^ << >> ! comparisons, as_* / try_as_* conversions, two-operator chains; operands on and next to the overflow / underflow / division-by-zero / shift-width boundaries): route R runs a per-type operator-table script with the operands as script data; route K evaluates the same expression in const and configurable initializers (plain, via helper fn, inside aggregates, via another const) and reads it back; route F writes it on literals in a function body built at O1 and O0 (direct, through lets, helper fn, widening, ccp form). If R returns v, K and F must yield v or decline with an ordinary diagnostic; if R aborts, K must be a compile error and F must abort without logging.",
+         "Casts and u8 arithmetic mostly decline in the K route (std uses asm there); the raw __not intrinsic is not generated.", "12/C06", "vp-sem"),
+ "C14": ("proptest scrutinee-type and pattern-matrix generator; brute-force enumeration of the value space as reference for the compiler's structured diagnostics and for the executed match",
+         "Exploration: 1500 (quick) / 40k (thorough) matches over bool, u8, enums (<= 4 variants, payloads), tuples/structs of these (<= 4096 values): 1-8 arms of literals, constructors, consts, nested tuple/struct patterns (any field order, `..`, shorthand), or-patterns, wildcards, bindings; built randomly, with a catch-all, or as a perturbed exact partition. MatchExpressionNonExhaustive iff some value is uncovered; every printed witness must parse, be of the scrutinee type and denote only uncovered values; an unreachable-arm warning on arm i iff no value has arm i as first match; a quarter of the cases also run (O0 and O1) on every value: the first matching arm (and its bound leaf) must be returned.",
+         "u8 is the only integer scrutinee type; diagnostics are read from in-process compile_to_ast; ~0.2% of generated matrices with nested or-patterns are rejected by the type checker and counted.", "12/C14", "vp-sem"),
+ "C27": ("proptest operation histories over std Vec/Bytes/String and operator tables for u8..u256/U128 math; Rust reference models (Vec, byte strings, num-bigint) predict logs and documented reverts",
+         "Exploration: 24k interpreted + 360 literal histories + 100k numeric runs (quick) / 1.5M + 9k + 6M (thorough): histories of 1-40 operations (push/pop/insert/remove/set/swap/resize/clear/split_at/append incl. self-append/splice, conversions; indices biased to 0, len-1, len, len+1) over Vec<u64>/Vec<u8>/Vec<struct>/Bytes/String run both as literal scripts and through one pre-compiled interpreter script per kind; numeric tables for u8..u256 and U128 (+ - * / % pow sqrt log log2 shifts, checked/wrapping/overflowing forms, conversions) on boundary operands. The exact log sequence must equal the model's; an operation documented under '# Reverts' must revert exactly there, all others must not.",
+         "Undocumented cases are excluded (log of 0 / base < 2, U128::sqrt(0), shifts >= width, capacity after growth, raw pointer constructors); revert codes are not compared.", "12/C27", "vp-ftest"),
+ "C28": ("proptest storage-layout and operation-history generator executed in-VM through forc-test; map/vector/byte-string models; periodic full dumps as non-interference oracle",
+         "Exploration: 324 (quick) / 8100 (thorough) histories of 5-48 operations over generated contracts with 5-11 storage fields (StorageVec of u64 / struct / u8, StorageMap to u64 / struct, nested StorageMap<u64, StorageVec<u64>>, StorageBytes, StorageString, plain canaries; a third built with the experimental dynamic_storage implementation), keys from a shared universe of 10: every logged read must equal the model, every k operations and at the end all fields and keys are dumped and must equal the model (operations on one field/key never change another), documented reverts must happen exactly there.",
+         "Vector length <= 24 (47 for small elements), slices <= 130 bytes; the bool returned by clear() on never-written slots is not checked; failing histories are reported unshrunk.", "12/C28", "vp-ftest"),
+ "C29": ("proptest test-suite generator from known-outcome templates run through forc-test under several runner configurations; oracle: reported verdict == template verdict, logs == own markers, readers see initial storage",
+         "Exploration: 120 (quick) / 3000 (thorough) generated library/script/contract packages with 2-25 #[test]s from 18 templates (pass; fail by assert / revert(c) / overflow / division by zero; should_revert that reverts or returns; should_revert = \"c\" with matching / different code / no revert; contract writer, reader, write-then-fail, revert inside a contract call), run with TestRunnerCount::Auto, Manual(1), Manual(3), a substring and an exact filter: every declared (matching) test is reported exactly once, passed() equals the documented verdict, each test's logs are its own markers plus the values it read, and a reader always sees the initial storage.",
+         "A VM panic counts as a revert; declared codes are decimal; debug profile; failing packages are reported unshrunk.", "12/C29", "vp-ftest"),
  "C30": ("enumeration of every fault point (abort / io::Error) of a git fetch through cfg hooks, in child processes, followed by a fresh build; oracle: resolved checkout == tree of the pinned commit",
          "Fault enumeration: 4 pinned + 1 random (quick) / 4 + 60 (thorough, plus second faults during recovery) generated local git repositories (1-26 files, nested dirs, 1-3 commits, tag/branch/rev/default references, with and without Forc.lock): every fault label on the path of pin + fetch x {process abort, io::Error} (354 pairs quick) is injected in a child process with a fresh HOME, then a fresh process runs a normal plan + check, which must succeed against exactly the pinned commit's tree.",
          "Process death with the page cache intact (no power-loss semantics); crash points inside libgit2's checkout are the per-file progress callback; upstream unchanged between fault and recovery.", "12/C30", "vp-proc"),
